@@ -112,6 +112,7 @@ func main() {
 	run("enc", func() {
 		encScripts(rEnc, per(sz.enc), per(sz.encX), per(sz.encBroken), sz.big)
 		encTimerScripts(rEnc, per(sz.timer))
+		encWhileOthersWork(rEnc, 6)
 	})
 	run("loop", func() {
 		loopback(rLoop, per(sz.loop), sz.big)
